@@ -455,6 +455,16 @@ HOp(m, outcome) ==
                           /\ running' = [running EXCEPT ![m].pc = Len(Prog[running[m].prog]) + 1]
                           /\ UNCHANGED <<mbox, orphan>>
                   /\ UNCHANGED <<queue, nextEpoch, slots, cancelled, blocked, sched, cancelPos>>
+         [] op.op = "bcast" ->
+              \* one output port connected to every target of Conn[m] (all of them models): the message is cloned
+              \* for each recipient
+              LET m0 == DirectMsg(op.prog, "ev", m) IN
+              /\ outcome = "ok"
+              /\ mbox' = [t \in Models |->
+                            IF \E i \in 1..Len(Conn[m]) : Conn[m][i] = t THEN [mbox[t] EXCEPT ![m] = Append(@, m0)]
+                            ELSE mbox[t]]
+              /\ Advance(m)
+              /\ UNCHANGED <<queue, nextEpoch, slots, cancelled, blocked, orphan, pendErr, sched, cancelPos>>
          [] op.op = "panic" ->
               /\ outcome = "ok"
               /\ pendErr' = pendErr \cup {RPanic(m)}
